@@ -11,6 +11,11 @@
               classes `s` (the whole input, end marker included if there is one):
               toks = <<[k, off]>>, err, off (offsets in characters).
 
+   kind = "if":    Linter.Lint on a workflow whose job- or step-level `if:` value is a rendering of the
+              character classes `s` (plain / single-quoted / double-quoted scalar):
+              nsyntax = syntax diagnostics of the expression rule, nexpr = all its diagnostics,
+              inside = every syntax diagnostic lies within the condition, off = offset of the first.
+
    PropOK  = the property, judged by the DECLARATIVE layers only (grammar / token languages):
              it alone decides VIOLATION.
    ModelOK = equality with the operational models (error index / offset, tokens before an error);
@@ -18,10 +23,11 @@
    A mismatching record does not stop validation, its index is collected. *)
 EXTENDS Naturals, Sequences, TLC, Json
 CONSTANTS MaxLen, Alphabet, EmitTc, PrintAcc, EndMarker
-VARIABLES l, mism, why, drift, ts, s, tc
+VARIABLES l, mism, why, drift, ts, s, v, tc
 
 P == INSTANCE ExprParser
 L == INSTANCE ExprLexer
+I == INSTANCE ExprIf
 
 Trace == ndJsonDeserialize("trace.ndjson")
 
@@ -57,10 +63,26 @@ LexPropOK(r) ==
   /\ r.err => r.off \in 0 .. Len(r.s)               \* the one error lies inside the text
 LexModelOK(r) == LexObs(r) = L!Lex(r.s, {}) \/ LexObs(r) = L!Lex(r.s, L!AllDevs)
 
-PropOK(r) == IF r.kind = "lex" THEN LexPropOK(r) ELSE ParsePropOK(r)
+IfPropOK(r) == I!Holds(r.s, [nsyntax |-> r.nsyntax, nexpr |-> r.nexpr, inside |-> r.inside])
+IfModelOK(r) ==
+  LET m == I!Check(r.s, I!IfDevs, L!AllDevs) IN
+  m.n = 2 \/ (m.n = r.nsyntax /\ (m.n = 1 => m.off = r.off))
+\* which part of the property an if: record breaks, or the named deviation that explains it exactly
+IfWhy(r) ==
+  LET m == I!Check(r.s, I!IfDevs, L!AllDevs)
+      old == I!Check(r.s, I!AllIfDevs, L!AllDevs)
+      vd == I!Verdict(r.s) IN
+  IF m.dev # "none" /\ m.n = r.nsyntax THEN m.dev
+  ELSE IF old.dev # "none" /\ old.n = r.nsyntax THEN old.dev
+  ELSE IF ~vd.sentence /\ r.nsyntax = 0 THEN "if-accepts"
+  ELSE IF vd.sentence /\ ~vd.more /\ r.nsyntax > 0 THEN "if-rejects"
+  ELSE "if-diagnostics"
+
+PropOK(r) == IF r.kind = "lex" THEN LexPropOK(r) ELSE IF r.kind = "if" THEN IfPropOK(r) ELSE ParsePropOK(r)
 \* which part of the property a rejected record breaks (names the site of the violation)
 Why(r) ==
-  IF r.kind = "lex" THEN
+  IF r.kind = "if" THEN IfWhy(r)
+  ELSE IF r.kind = "lex" THEN
        LET d == L!DTok(r.s)
            cr == L!Run(r.s, L!AllDevs) IN
        IF ~r.err /\ d.err THEN "lex-accepts"
@@ -73,9 +95,9 @@ Why(r) ==
        ELSE IF r.ok /\ ds = {} THEN "accepts-nonsentence"
        ELSE IF ~r.ok /\ ds # {} THEN "rejects-sentence"
        ELSE IF r.ok THEN "tree" ELSE "error-position"
-ModelOK(r) == IF r.kind = "lex" THEN LexModelOK(r) ELSE ParseModelOK(r)
+ModelOK(r) == IF r.kind = "lex" THEN LexModelOK(r) ELSE IF r.kind = "if" THEN IfModelOK(r) ELSE ParseModelOK(r)
 
-Init == l = 1 /\ mism = <<>> /\ why = <<>> /\ drift = <<>> /\ ts = <<>> /\ s = <<>> /\ tc = ""
+Init == l = 1 /\ mism = <<>> /\ why = <<>> /\ drift = <<>> /\ ts = <<>> /\ s = <<>> /\ v = <<>> /\ tc = ""
 Step ==
   /\ l <= Len(Trace)
   /\ LET r == Trace[l] IN
@@ -83,8 +105,8 @@ Step ==
        /\ why' = IF PropOK(r) \/ Len(mism) >= 20000 THEN why ELSE Append(why, Why(r))
        /\ drift' = IF ModelOK(r) \/ Len(drift) >= 20000 THEN drift ELSE Append(drift, l)
   /\ l' = l + 1
-  /\ UNCHANGED <<ts, s, tc>>
-Spec == Init /\ [][Step]_<<l, mism, why, drift, ts, s, tc>>
+  /\ UNCHANGED <<ts, s, v, tc>>
+Spec == Init /\ [][Step]_<<l, mism, why, drift, ts, s, v, tc>>
 
 Report == (l = Len(Trace) + 1) => PrintT(<<"MISM", Len(Trace), mism, why, drift>>)
 =============================================================================
